@@ -181,7 +181,7 @@ def reads_agree(code, tree, inputs):
         return explain('sequence of delivered reads differs from the cyclic-stream reference')
     if len(ctx.inputs) != 1:
         return explain('scope depth')
-    return True
+    return path_ok()
 
 """
     for gi, P in enumerate(gen):
@@ -192,6 +192,7 @@ def reads_agree(code, tree, inputs):
     src += prog_fn("twin_p_lam1", '?λ_"?;†?', PROGRAMS[4][2], ex_prog, twin=True).replace("CODE_twin_p_lam1", "CODE_p_lam1")
     plan.obs.append(Ob("twin_p_lam1", "prog", "m", "twin_p_lam1", 120, "refuted", "reachability twin"))
     plan.modules["m"] = src
+    plan.require_ok_marker = {"generated"}
     plan.functions_encoded = ["vyxal/helpers.py: pop get_input wrapify deep_copy", "vyxal/elements.py: template of `?`, templates of \" _ + ‟ Ŀ † and the lambda/function call protocol (function_call, safe_apply)",
                               "vyxal/transpile.py: transpile (run concretely, its output text is exec'ed symbolically): lambda, function, for, while, if, list templates"]
     plan.rule = ("one-step lemmas from an arbitrary state (inputs, unbounded cursor, stack fill) for pops of arity 1-3 and the `?` template, at top level and inside a call scope; "
